@@ -224,24 +224,36 @@ func loopsOf(p *Prog, fn *ssa.Function) []*Loop {
 				add = k
 			}
 		}
-		if phi == nil || phi.Block() != h || len(phi.Edges) != 2 {
+		if phi == nil || phi.Block() != h || len(phi.Edges) < 2 {
 			continue
 		}
 		// one edge constant init (from outside), the other phi+1 (from inside)
 		var init int64
-		okInit, okStep := false, false
+		okInit, okStep := false, true
+		nOut, nIn := 0, 0
 		for i, e := range phi.Edges {
 			pred := h.Preds[i]
 			if l.Blocks[pred] {
+				nIn++
 				st := fi.T(e)
+				step := false
 				if st.K == TBin && st.Name == "+" && st.Sub[0].s == fi.T(phi).s {
 					if k, ok := intConst(st.Sub[1]); ok && k == 1 {
-						okStep = true
+						step = true
 					}
 				}
-			} else if k, ok := intConst(fi.T(e)); ok {
-				init, okInit = k, true
+				if !step {
+					okStep = false
+				}
+			} else {
+				nOut++
+				if k, ok := intConst(fi.T(e)); ok {
+					init, okInit = k, true
+				}
 			}
+		}
+		if nOut != 1 || nIn == 0 {
+			continue
 		}
 		if !okInit || !okStep {
 			continue
@@ -256,6 +268,12 @@ func loopsOf(p *Prog, fn *ssa.Function) []*Loop {
 // back to the header) traverses an edge carrying an atom accepted by pred. Paths leaving the loop
 // are not constrained here (see exitsOnlyByExhaustion).
 func (fi *FnInfo) everyIteration(l *Loop, pred func(Atom) bool) bool {
+	return fi.everyIterationE(l, func(a Atom, from, to *ssa.BasicBlock) bool { return pred(a) })
+}
+
+// everyIterationE: the predicate also sees the edge, so it can consult the facts that hold at the
+// edge's source block.
+func (fi *FnInfo) everyIterationE(l *Loop, pred func(a Atom, from, to *ssa.BasicBlock) bool) bool {
 	if l.Body == nil {
 		return false
 	}
@@ -266,7 +284,7 @@ func (fi *FnInfo) everyIteration(l *Loop, pred func(Atom) bool) bool {
 				continue
 			}
 			for _, a := range fi.edgeAtoms(b, s) {
-				if pred(a) {
+				if pred(a, b, s) {
 					cut[[2]*ssa.BasicBlock{b, s}] = true
 				}
 			}
@@ -479,6 +497,46 @@ func retConst(fi *FnInfo, r *ssa.Return, idx int) (string, bool) {
 	}
 	if t.K == TNil {
 		return "nil", true
+	}
+	return "", false
+}
+
+// structLitFields: for a value that is a locally built struct (composite literal, passed by value
+// or by pointer), return the terms stored to its fields.
+func (fi *FnInfo) structLitFields(v ssa.Value) map[string]*Term {
+	var al *ssa.Alloc
+	switch x := v.(type) {
+	case *ssa.Alloc:
+		al = x
+	case *ssa.UnOp:
+		if x.Op == token.MUL {
+			al, _ = x.X.(*ssa.Alloc)
+		}
+	}
+	if al == nil {
+		return nil
+	}
+	out := map[string]*Term{}
+	for _, r := range *al.Referrers() {
+		fa, ok := r.(*ssa.FieldAddr)
+		if !ok {
+			continue
+		}
+		for _, r2 := range *fa.Referrers() {
+			if st, ok := r2.(*ssa.Store); ok && st.Addr == fa {
+				out[fieldName(al.Type(), fa.Field)] = fi.T(st.Val)
+			}
+		}
+	}
+	return out
+}
+
+// lenAtLeastOne: facts imply len(x) >= 1 for a term x matching pat.
+func lenAtLeastOne(facts []Atom, b Binds, pat string) (string, bool) {
+	for _, ps := range []string{"len(" + pat + ") != 0", "0 < len(" + pat + ")", "1 <= len(" + pat + ")"} {
+		if a, ok := findAtom(facts, ps, b); ok {
+			return a.s, true
+		}
 	}
 	return "", false
 }
